@@ -2,11 +2,14 @@
  * entries; the harness builds an arbitrary well-formed chain (any subset of the entries, any order, distinct node ids,
  * times > 0, any timers/counters/states - pointers by assignment), runs one real operation and asserts the change of
  * the abstract view (which entry is active, its timer/counter/state) and that no other entry is disturbed.
- * -DVW_OP=0 Activate 1 Check 2 Monitor 3 GetHbEvents 4 LastHbState.  -include'd in front of co_hb_cons.c. */
+ * -DVW_OP=0 Activate 1 Check 2 Monitor 3 GetHbEvents 4 LastHbState 5 type Write (1016h:k through SDO / dictionary API)
+ * 6 type Read 7 type Size 8 type Init (node initialisation).  -include'd in front of co_hb_cons.c. */
 #include "vw_defs.h"
 #include "vw_node.h"
 #include "nmt.h"
+#ifndef HN
 #define HN 3
+#endif
 CO_HBCONS V_HBC[HN]; _Bool H_IN[HN]; uint8_t H_ORD[HN];
 uint32_t N_TDEL, N_TCRE, N_EVT, N_CHG, N_GETTICKS; int16_t D_ID, H_TID, H_DELRES; uint32_t C_START, C_CYCLE, H_TICKS; void *C_PARA; CO_TMR_FUNC C_FUNC; uint16_t A_TIME; uint8_t E_NODE, G_NODE; CO_MODE G_MODE;
 int16_t COTmrDelete(CO_TMR *tmr, int16_t actId) { __CPROVER_assert(tmr == &V_NODE.Tmr && actId >= 0, "COTmrDelete requires: a valid id"); N_TDEL++; D_ID = actId; __CPROVER_assume(H_DELRES == 0 || H_DELRES == -1); return H_DELRES; }
@@ -16,7 +19,8 @@ void CONmtHbConsEvent(CO_NMT *nmt, uint8_t nodeId) { N_EVT++; E_NODE = nodeId; }
 void CONmtHbConsChange(CO_NMT *nmt, uint8_t nodeId, CO_MODE mode) { N_CHG++; G_NODE = nodeId; G_MODE = mode; }
 void CONodeFatalError(void) { __CPROVER_assert(0, "CONodeFatalError must not be reached"); }
 void COTPdoTrigObj(CO_TPDO *pdo, struct CO_OBJ_T *obj) { }
-CO_OBJ *CODictFind(CO_DICT *cod, uint32_t key) { return 0; }
+CO_OBJ V_HO[HN + 1]; _Bool H_EXIST[HN + 1], H_DATA[HN + 1]; uint32_t H_VAL, H_SZ; uint8_t H_CNT;
+CO_OBJ *CODictFind(CO_DICT *cod, uint32_t key) { uint8_t sub = (uint8_t)(key >> 8); if ((key >> 16) == 0x1016 && sub >= 1 && sub <= HN && H_EXIST[sub]) { return &V_HO[sub]; } return 0; }
 static int next_in(int after) { int r = -1; for (int k = 0; k < HN; k++) { if (H_IN[k] && (int)H_ORD[k] > after && (r < 0 || H_ORD[k] < H_ORD[r])) { r = k; } } return r; }
 static void vw_hbc_build(void)
 {
@@ -50,9 +54,23 @@ void harness(void)
     CO_HBCONS c0[HN]; _Bool in0[HN]; int k, mon = -1;
     for (k = 0; k < HN; k++) { c0[k] = V_HBC[k]; in0[k] = spec_in_chain(k); }
     N_TDEL = N_TCRE = N_EVT = N_CHG = N_GETTICKS = 0;
-#if VW_OP == 0
+#if VW_OP == 0 || VW_OP == 5
+#if VW_OP == 5
+    /* 1016h:k written through the type function (SDO download or dictionary API): value = node id << 16 | time */
+    V_HO[1].Key = CO_KEY(0x1016, 1 + H_I, V_HO[1].Key & 0x3F); V_HO[1].Data = (CO_DATA)&V_HBC[H_I];
+    H_TIME = (uint16_t)H_VAL; H_NODEID = (uint8_t)(H_VAL >> 16);
+    for (k = 0; k < HN; k++) { if (in0[k] && c0[k].NodeId == H_NODEID) { mon = k; } }
+    CO_ERR e = COTNmtHbConsWrite(&V_HO[1], &V_NODE, &H_VAL, H_SZ);
+    if (H_SZ != 4) {
+        __CPROVER_assert(e == CO_ERR_TYPE_WR && N_TDEL + N_TCRE == 0, "a write of any other length than 4 bytes is refused");
+        for (k = 0; k < HN; k++) { __CPROVER_assert(SAME(k), "a refused write changes nothing"); }
+        __CPROVER_assert(0, "REACH:c");
+    } else {
+#else
     for (k = 0; k < HN; k++) { if (in0[k] && c0[k].NodeId == H_NODEID) { mon = k; } }
     CO_ERR e = CONmtHbConsActivate(&V_HBC[H_I], H_TIME, H_NODEID);
+    {
+#endif
     __CPROVER_assert(spec_wf(), "activate: the chain stays well-formed (acyclic, distinct node ids)");
     if (H_TIME > 0 && mon >= 0) {
         __CPROVER_assert(e == CO_ERR_OBJ_INCOMPATIBLE && N_TDEL + N_TCRE == 0, "a non-zero time for a node that is already monitored is refused (0604 0043h)");
@@ -62,6 +80,7 @@ void harness(void)
         __CPROVER_assert((in0[H_I] && c0[H_I].Tmr >= 0) ==> (N_TDEL == 1 && D_ID == c0[H_I].Tmr), "the running monitor action of the written entry is deleted (exactly its own id)");
         __CPROVER_assert(!(in0[H_I] && c0[H_I].Tmr >= 0) ==> N_TDEL == 0, "no other action is deleted");
         for (k = 0; k < HN; k++) { if (k != H_I) { __CPROVER_assert(SAME(k), "configuring or clearing one entry never disturbs another"); } }
+    }
     }
     if (e == CO_ERR_OBJ_INCOMPATIBLE) { __CPROVER_assert(0, "REACH:a"); }
     if (in0[H_I] && in0[(H_I + 1) % HN] && in0[(H_I + 2) % HN] && H_TIME == 0) { __CPROVER_assert(0, "REACH:b"); }
@@ -98,6 +117,49 @@ void harness(void)
     for (k = 0; k < HN; k++) { if (k != mon) { __CPROVER_assert(SAME(k), "reading touches no other entry"); } }
     if (r == 255) { __CPROVER_assert(0, "REACH:a"); }
     if (r == -1) { __CPROVER_assert(0, "REACH:b"); }
+#elif VW_OP == 6 || VW_OP == 7
+    /* reading 1016h:k delivers the configured node id and time; the size is 4 bytes (1 for sub-index 0) - nothing changes */
+    _Bool sub0 = (H_CNT & 1) != 0;
+    V_HO[1].Key = CO_KEY(0x1016, sub0 ? 0 : 1 + H_I, V_HO[1].Key & 0x3F); V_HO[1].Data = (CO_DATA)&V_HBC[H_I];
+#if VW_OP == 6
+    __CPROVER_assume(!sub0);
+    uint32_t out = 0xA5A5A5A5u;
+    CO_ERR e = COTNmtHbConsRead(&V_HO[1], &V_NODE, &out, H_SZ);
+    __CPROVER_assert(e == CO_ERR_NONE && (H_SZ == 4 ==> out == ((uint32_t)c0[H_I].Time | ((uint32_t)c0[H_I].NodeId << 16))), "1016h:k reads as node id << 16 | time of the entry");
+    __CPROVER_assert(H_SZ != 4 ==> out == 0xA5A5A5A5u, "a read of another length delivers nothing");
+    if (H_SZ == 4) { __CPROVER_assert(0, "REACH:a"); } else { __CPROVER_assert(0, "REACH:b"); }
+#else
+    uint32_t z = COTNmtHbConsSize(&V_HO[1], &V_NODE, H_SZ);
+    __CPROVER_assert(z == (sub0 ? 1u : 4u), "size of 1016h:0 is 1 byte, of every consumer entry 4 bytes");
+    if (sub0) { __CPROVER_assert(0, "REACH:a"); } else { __CPROVER_assert(0, "REACH:b"); }
+#endif
+    for (k = 0; k < HN; k++) { __CPROVER_assert(SAME(k), "reading / sizing changes nothing"); }
+    __CPROVER_assert(N_TDEL + N_TCRE + N_EVT + N_CHG == 0, "reading / sizing touches no timer and notifies nobody");
+#elif VW_OP == 8
+    /* node initialisation (COTNmtHbConsInit on 1016h:0, run once by CODictObjInit after CONmtInit emptied the chain): every
+     * configured entry 1..count with a non-zero time is monitored afterwards, no other; monitoring starts with the first heartbeat */
+    V_NODE.Nmt.HbCons = 0;
+    for (k = 0; k < HN; k++) { V_HBC[k].Next = 0; V_HBC[k].Tmr = -1; }
+    for (k = 1; k <= HN; k++) { V_HO[k].Key = CO_KEY(0x1016, k, V_HO[k].Key & 0x3F); V_HO[k].Data = H_DATA[k] ? (CO_DATA)&V_HBC[k - 1] : (CO_DATA)0; }
+    __CPROVER_assume(H_CNT <= HN);
+    V_HO[0].Key = CO_KEY(0x1016, 0, CO_OBJ_D___R_); V_HO[0].Data = (CO_DATA)(uintptr_t)H_CNT; V_HO[0].Type = CO_TUNSIGNED8;
+    for (k = 0; k < HN; k++) { c0[k] = V_HBC[k]; }
+    _Bool complete = 1, dup = 0;
+    for (k = 1; k <= HN; k++) { if (k <= H_CNT && !(H_EXIST[k] && H_DATA[k])) { complete = 0; } }
+    for (k = 0; k < HN; k++) { for (int j = 0; j < k; j++) { if (k < H_CNT && j < H_CNT && c0[k].Time > 0 && c0[j].Time > 0 && c0[k].NodeId == c0[j].NodeId) { dup = 1; } } }
+    CO_ERR e = COTNmtHbConsInit(&V_HO[0], &V_NODE);
+    __CPROVER_assert(spec_wf(), "init: the consumer chain is well-formed");
+    __CPROVER_assert((complete && !dup && H_CNT > 0) ==> e == CO_ERR_NONE, "init succeeds when every configured entry exists and no node is configured twice");   /* (count 0 is answered CO_ERR_TYPE_INIT by the code - no property speaks about it: left unconstrained, DESIGN 9.3) */
+    __CPROVER_assert((!complete && H_CNT > 0) ==> e == CO_ERR_TYPE_INIT, "a missing consumer entry is reported as initialisation error");
+    if (e == CO_ERR_NONE) {
+        for (k = 0; k < HN; k++) {
+            __CPROVER_assert(spec_in_chain(k) == (k < H_CNT && c0[k].Time > 0), "init: exactly the configured entries with a non-zero time are monitored");
+            __CPROVER_assert(k < H_CNT ==> (V_HBC[k].Node == &V_NODE && V_HBC[k].Time == c0[k].Time && V_HBC[k].NodeId == c0[k].NodeId && V_HBC[k].Tmr == -1 && V_HBC[k].Event == 0), "init: node id and time as configured; monitoring starts with the first heartbeat; counter cleared");
+        }
+    }
+    __CPROVER_assert(N_TCRE == 0 && N_TDEL == 0 && N_EVT == 0 && N_CHG == 0, "init: no timer runs and nobody is notified before the first heartbeat");
+    if (e == CO_ERR_NONE && H_CNT == HN && spec_in_chain(0) && spec_in_chain(2)) { __CPROVER_assert(0, "REACH:a"); }
+    if (e != CO_ERR_NONE) { __CPROVER_assert(0, "REACH:b"); }
 #else
     for (k = 0; k < HN; k++) { if (in0[k] && c0[k].NodeId == H_NODEID) { mon = k; } }
     CO_MODE r = CONmtLastHbState(&V_NODE.Nmt, H_NODEID);
